@@ -26,6 +26,7 @@ pub enum Tier {
 pub struct Replay {
     pub gen: String,
     pub index: u64,
+    pub path: String,
 }
 
 #[derive(Clone, Debug)]
@@ -106,7 +107,7 @@ impl Cli {
                         }
                     }
                     match (gen, index) {
-                        (Some(gen), Some(index)) => replay = Some(Replay { gen, index }),
+                        (Some(gen), Some(index)) => replay = Some(Replay { gen, index, path: args[i].clone() }),
                         _ => {
                             eprintln!("replay file lacks gen=/index= lines");
                             std::process::exit(2)
@@ -553,7 +554,7 @@ impl Run {
                 if let Some(k) = self.known.iter().find(|k| k.signature == v.sig) {
                     println!("KNOWN-FINDING: property={} {}", id_u, k.what);
                 } else {
-                    println!("VIOLATION property={} replay=<replayed>", id_u);
+                    println!("VIOLATION property={} replay={}", id_u, self.cli.replay.as_ref().map(|r| r.path.as_str()).unwrap_or("<replayed>"));
                     code = 1;
                 }
             }
